@@ -99,6 +99,9 @@ package parser
 //@ func (*PacketDslVisitorImpl).VisitPacketDefinition
 //@   ensures typeis(result, *model.Packet) && unbox(result, *model.Packet) != nil && model.fieldsNonNil(unbox(result, *model.Packet))
 //@   ensures [C08:names-are-token-texts] istokentext(unbox(result, *model.Packet).Name)
+//@   ensures [C12:D4-length-only-in-root] forall(i, 0, len(unbox(result, *model.Packet).Fields), typeis(unbox(result, *model.Packet).Fields[i].Attr, *model.LengthFieldAttribute) ==> unbox(result, *model.Packet).IsRoot && unbox(result, *model.Packet).Fields[i] == unbox(result, *model.Packet).LengthField)
+//@   loop 0 invariant forall(i, 0, len(fields), typeis(fields[i].Attr, *model.LengthFieldAttribute) ==> isRoot)
+//@   loop 1 invariant forall(i, 0, len(fields), typeis(fields[i].Attr, *model.LengthFieldAttribute) ==> isRoot)
 //@   ensures [C04:link] unbox(result, *model.Packet).LengthField != nil ==> typeis(unbox(result, *model.Packet).LengthField.Attr, *model.LengthFieldAttribute) && forall(i, 0, len(unbox(result, *model.Packet).Fields), unbox(result, *model.Packet).Fields[i].Name == unbox(unbox(result, *model.Packet).LengthField.Attr, *model.LengthFieldAttribute).TragetField.Name ==> typeis(unbox(result, *model.Packet).Fields[i].LenAttr, *model.LengthFieldAttribute))
 //@   loop 0 invariant forallkey(k, fieldMap, fieldMap[k] != nil && fieldMap[k].Name == k)
 //@   loop 0 invariant forall(i, 0, len(fields), typeis(fields[i].Attr, *model.LengthFieldAttribute) ==> fields[i] == lengthField)
